@@ -148,7 +148,9 @@ class C19(PropertyCheck):
         "labels and the PNG files are not compared; write_screen_res / tsdiffana / diagnose: the arrays and images "
         "written are compared with the computed results, file-name plumbing is exercised only",
         "scipy.ndimage.label supplies the component labels to the model of largest_cc / "
-        "threshold_connect_components; the oracle re-labels with an independent flood fill",
+        "threshold_connect_components; the oracle re-labels with an independent flood fill; every component case is "
+        "also presented as a floating-point map whose non-zero voxels carry +-inf / NaN / +-1e308 / denormal values "
+        "(oracle only: the model is rational; components below the threshold become 0, the rest stays bitwise)",
         "ndimage.binary_opening, ndimage.gaussian_filter and the float rounding of threshold*len / m*len are "
         "outside the model (model lines only where the float product is exact; thresholds within 1e-3 of a "
         "voxel count are not judged by the oracle)",
